@@ -293,6 +293,10 @@ def gen_mul(rng, cv, sysname, count, part=None):
                 continue
             out.append("eds %s %s %s %s %s" % (v, ptok(rng, cv, rng.choice(pool), rp), hx(scalar(rng, cv.r, cls)),
                                               ptok(rng, cv, rng.choice(pool), rp), hx(scalar(rng, cv.r, (cls * 5 + 3) % NCLASS))))
+        # the result object is the first / second point operand (non-zero scalars of ordinary size)
+        for al in (".p", ".q"):
+            out.append("eds %s%s %s %x %s %x" % (v, al, ptok(rng, cv, rng.choice(pool), rp), 1 + rng.below(cv.r - 1),
+                                                ptok(rng, cv, rng.choice(pool), rp), 1 + rng.below(cv.r - 1)))
     for _ in range(count):
         k = rng.below(100)
         if k < 55:
@@ -303,7 +307,7 @@ def gen_mul(rng, cv, sysname, count, part=None):
                 kk = abs(kk) & ((1 << 64) - 1)
             out.append("edm %s %d %s %s" % (v, rng.below(2), ptok(rng, cv, P, "" if v.startswith("fix") else rp), hx(kk)))
         elif k < 90:
-            v = rng.choice(SIM)
+            v = rng.choice(SIM) + rng.choice(["", "", ".p", ".q"])      # result object = an operand
             P, Q = sub_point(rng, cv, pool), sub_point(rng, cv, pool)
             j = rng.below(8)
             if j == 0:
